@@ -45,7 +45,7 @@ def prom():
 
 def cases(tier, seed):
     out = []
-    n = 10 if tier == "quick" else 100
+    n = 10 if tier == "quick" else 1500
     for layer in LAYERS:
         for i in range(n):
             out.append({"name": "metrics.history/%s/%d" % (layer, i), "kind": "hist", "layer": layer, "idx": i,
@@ -54,7 +54,7 @@ def cases(tier, seed):
         for hi, h in enumerate(hists):
             out.append({"name": "metrics.directed/%s/%d" % (layer, hi), "kind": "hist", "layer": layer, "idx": 1000 + hi,
                         "steps": len(h), "script": h})
-    for i in range(20 if tier == "quick" else 200):
+    for i in range(20 if tier == "quick" else 4000):
         out.append({"name": "metrics.stack/%d" % i, "kind": "stack", "idx": i, "steps": 14})
     cap = 16 if tier == "quick" else None
     for layer in ("retry", "throttle", "poll", "timeout", "map"):
